@@ -145,6 +145,16 @@ class Interp:
     def call(self, f: FuncInfo, args: List[AV], kwargs: Dict[str, AV], closure: Optional[Env]) -> AV:
         if not self.analysable(f) or f.is_abstract:
             return self.summary(f)
+        # flag splitting: an unknown boolean argument is analysed once per value
+        # so that statements correlated with the flag stay correlated
+        for i, a in enumerate(args):
+            if isinstance(a, Bool) and a.val is None and i < 8:
+                outs = []
+                for b in (True, False):
+                    a2 = list(args)
+                    a2[i] = Bool(b)
+                    outs.append(self.call(f, a2, kwargs, closure))
+                return join_all(outs)
         key = (f.qualname, tuple(args), tuple(sorted(kwargs.items())),
                tuple(sorted(closure.items())) if closure else None)
         try:
